@@ -5,8 +5,8 @@ from harness.core import cbool, clist, copt, cq, cz, czlist
 
 ID = "C11"
 MODEL_TARGETS = ["C11/Cases.vo"]
-PROOF_TARGETS = ["C11/Proofs.vo", "C11/Refuted.vo"]
-OBLIGATION_FILES = ["C11/Refuted.v"]
+PROOF_TARGETS = ["C11/Proofs.vo", "C11/Gen.vo", "C11/Bridge.vo", "C11/Refuted.vo"]
+OBLIGATION_FILES = ["C11/Bridge.v", "C11/Refuted.v"]
 PROPS_FILE = "C11/Props.v"
 SHARD = 150
 PER_CASE_TIMEOUT = 120
@@ -24,6 +24,8 @@ RULE = ("NaiveForecaster: all strategies x sp 1..4 x window_length None/1..n(+1)
         "against a direct statsmodels call with the same options. non-trivial = forecast "
         "returned (or a documented rejection); distinct = distinct canonical JSON case")
 TRUSTED = [
+    "translator/naive_c11.py: the symbolic evaluator (static decision of `self.strategy == ...`, "
+    "`x is None`, `None == k`, is_int(<int>); sp and window_length are integers or None)",
     "props/c11.py: case generators, canonicalisation of the forecaster output, and the direct "
     "statsmodels calls (ExponentialSmoothing / ETSModel / seasonal_decompose with the options the "
     "sktime class passes) used as the reference for the adapters",
@@ -36,8 +38,22 @@ TRUSTED = [
     "tolerance 1e-9 after exact float -> rational conversion",
 ]
 MODELLED = [
-    "naive kernel, window selection and window-length resolution: hand model (Model.v), tied by "
-    "correspondence on every run, not regenerated from source",
+    "REGENERATED on every run by translator/naive_c11.py (fail closed) into build/coq/C11/Gen.v and "
+    "proved equal to the hand model for all arguments in coq/C11/Bridge.v: NaiveForecaster.fit "
+    "(gen_resolve_wl, gen_fit_sp) and NaiveForecaster._predict_last_window (gen_kernel) as whole "
+    "function bodies per strategy; check_sp / check_window_length on integer arguments; "
+    "ForecastingHorizon.to_indexer / to_absolute / to_relative / to_absolute_int as one-line "
+    "expressions; _predict_nan; the in-sample cutoffs and fh=1 of _predict_in_sample; the label "
+    "slice of _get_last_window; PolynomialTrendForecaster: LinearRegression(fit_intercept=False), "
+    "PolynomialFeatures(degree, include_bias=with_intercept), np.arange(n_timepoints), "
+    "to_absolute_int(index[0], cutoff), the prediction index. Pinned by shape only (not "
+    "regenerated): the in-/out-of-sample dispatch of _BaseWindowForecaster._predict, "
+    "_predict_moving_cutoff / CutoffSplitter (moving windows: tied by the correspondence run), "
+    "_get_duration, _shift",
+    "the numpy primitives of the generated code (np_* / sq_* in Model.v: hstack, full, tile, "
+    "repeat, reshape(-1, c), nanmean, isnan/all/any, integer-array indexing, int(ceil(a / b)) for "
+    "b > 0, float arithmetic with NaN as None) are modelled, checked only through the "
+    "correspondence run",
     "polynomial fit: model solves and CHECKS the normal equations in Q; theorem = whatever it "
     "returns minimises the squared error (all degrees); that elimination always succeeds for "
     "#coefficients <= n is only observed, not proved (poly_is_lsq_partial)",
@@ -49,6 +65,15 @@ MODELLED = [
     "not covered",
 ]
 NOT_RUNNABLE = []
+
+
+def translate(repo):
+    """Regenerated on every run (build/coq/C11/Gen.v), fail closed: NaiveForecaster.fit and
+    _predict_last_window as whole function bodies, the validators / ForecastingHorizon one-liners /
+    window and in-sample-cutoff expressions they rely on, the design matrix and time axes of
+    PolynomialTrendForecaster."""
+    from translator import naive_c11
+    return naive_c11.translate(repo)
 
 
 # ------------------------------------------------------------------------------------------------
